@@ -18,7 +18,7 @@ int main(int argc, char **argv) {
   std::vector<uint8_t> d = replay_io::bytes(in["IN"]);
   size_t n = in.count("IN_N") ? replay_io::u64(in["IN_N"]) : d.size();
   d.resize(n, 0);
-  size_t pos = in.count("POS") ? replay_io::u64(in["POS"]) : 0;
+  size_t pos = in.count("START") ? replay_io::u64(in["START"]) : 0;
   if (pos > n) pos = n;
   // exact-size heap copy so that ASan sees any read past the end of the view
   char *buf = new char[n ? n : 1]; if (n) memcpy(buf, d.data(), n);
